@@ -127,6 +127,8 @@ Definition H_dims (N : Z) (dims excl : option vec) : res vec :=
 Definition H_dimscheck (N : Z) (M : option Z) (dims excl : option vec) : res (vec * option vec) :=
   bind (H_dims N dims excl) (fun d =>
   if np_any (np_lt_s d 0) then Err else
+  if negb (np_all (np_isin d (np_arange 0 N))) then Err else
+  if negb (zlen (np_unique d) =? zlen d) then Err else
   match M with
   | None => Ok (np_sort d, None)
   | Some m => if m >? N then Err
@@ -140,35 +142,55 @@ Proof.
   unfold tt_dimscheck, H_dimscheck, H_dims.
   destruct dims as [d|], excl as [e|]; cbn [is_some andb negb bind]; try reflexivity.
   - (* dims given *)
-    destruct (np_any (np_lt_s d 0)); [reflexivity|]. rewrite take_argsort.
+    destruct (np_any (np_lt_s d 0)); [reflexivity|].
+    destruct (negb (np_all (np_isin d (np_arange 0 N)))); [reflexivity|].
+    destruct (negb (zlen (np_unique d) =? zlen d)); [reflexivity|]. rewrite take_argsort.
     destruct M as [m|]; cbn [bind]; [|reflexivity].
     destruct (m >? N); [reflexivity|].
     destruct (negb ((m =? N) || (m =? zlen d))); [reflexivity|].
     destruct (zlen d =? m); reflexivity.
   - (* exclude given *)
     destruct (np_all (np_isin e (np_arange 0 N))); cbn [negb bind]; [|reflexivity].
-    destruct (np_any (np_lt_s (np_setdiff1d (np_arange 0 N) e) 0)); [reflexivity|]. rewrite take_argsort.
+    set (c := np_setdiff1d (np_arange 0 N) e).
+    destruct (np_any (np_lt_s c 0)); [reflexivity|].
+    destruct (negb (np_all (np_isin c (np_arange 0 N)))); [reflexivity|].
+    destruct (negb (zlen (np_unique c) =? zlen c)); [reflexivity|]. rewrite take_argsort.
     destruct M as [m|]; cbn [bind]; [|reflexivity].
     destruct (m >? N); [reflexivity|].
-    destruct (negb ((m =? N) || (m =? zlen (np_setdiff1d (np_arange 0 N) e)))); [reflexivity|].
-    destruct (zlen (np_setdiff1d (np_arange 0 N) e) =? m); reflexivity.
+    destruct (negb ((m =? N) || (m =? zlen c))); [reflexivity|].
+    destruct (zlen c =? m); reflexivity.
   - (* neither *)
-    destruct (np_any (np_lt_s (np_arange 0 N) 0)); [reflexivity|]. rewrite take_argsort.
+    set (c := np_arange 0 N).
+    destruct (np_any (np_lt_s c 0)); [reflexivity|].
+    destruct (negb (np_all (np_isin c c))); [reflexivity|].
+    destruct (negb (zlen (np_unique c) =? zlen c)); [reflexivity|]. rewrite take_argsort.
     destruct M as [m|]; cbn [bind]; [|reflexivity].
     destruct (m >? N); [reflexivity|].
-    destruct (negb ((m =? N) || (m =? zlen (np_arange 0 N)))); [reflexivity|].
-    destruct (zlen (np_arange 0 N) =? m); reflexivity.
+    destruct (negb ((m =? N) || (m =? zlen c))); [reflexivity|].
+    destruct (zlen c =? m); reflexivity.
 Qed.
 
-(* the admissibility predicate of a request, written from the docstring *)
+(* the admissibility predicate of a request, written from the docstring: modes inside the tensor, none repeated,
+   and a multiplicand count that is either one per listed mode or one per tensor mode *)
 Definition dims_ok (N : Z) (M : option Z) (d : vec) : Prop :=
-  (forall x, In x d -> 0 <= x) /\
+  (forall x, In x d -> 0 <= x < N) /\ NoDup d /\
   match M with None => True | Some m => m <= N /\ (m = N \/ m = zlen d) end.
 
 Lemma no_neg d : (forall x, In x d -> 0 <= x) -> np_any (np_lt_s d 0) = false.
 Proof.
   intros H. destruct (np_any (np_lt_s d 0)) eqn:E; [|reflexivity].
   apply np_any_lt in E as (x & Hx & Hlt). specialize (H x Hx). lia.
+Qed.
+
+Lemma in_range_ok d N : (forall x, In x d -> 0 <= x < N) -> np_all (np_isin d (np_arange 0 N)) = true.
+Proof. intros H. apply np_all_isin. intros x Hx. apply in_np_arange. auto. Qed.
+
+Lemma nodup_ok d : NoDup d -> (zlen (np_unique d) =? zlen d) = true.
+Proof. intros H. apply Z.eqb_eq. unfold zlen. f_equal. now apply np_unique_length_nodup. Qed.
+
+Lemma dup_rejected d : ~ NoDup d -> (zlen (np_unique d) =? zlen d) = false.
+Proof.
+  intros H. apply Z.eqb_neq. unfold zlen. intros E. apply H. apply np_unique_length_nodup. lia.
 Qed.
 
 (* the multiplicand index vector returned for the sorted modes *)
@@ -178,15 +200,35 @@ Definition vidx_of (N : Z) (M : option Z) (d : vec) : option vec :=
   | Some m => if zlen d =? m then Some (np_argsort d) else Some (np_sort d)
   end.
 
-Theorem dimscheck_dims N M d : dims_ok N M d ->
-  tt_dimscheck N M (Some d) None = Ok (np_sort d, vidx_of N M d).
+Lemma H_tail N M d :
+  (forall x, In x d -> 0 <= x < N) -> NoDup d ->
+  match M with None => True | Some m => m <= N /\ (m = N \/ m = zlen d) end ->
+  (if np_any (np_lt_s d 0) then Err else
+   if negb (np_all (np_isin d (np_arange 0 N))) then Err else
+   if negb (zlen (np_unique d) =? zlen d) then Err else
+   match M with
+   | None => Ok (np_sort d, None)
+   | Some m => if m >? N then Err
+               else if negb ((m =? N) || (m =? zlen d)) then Err
+               else if zlen d =? m then Ok (np_sort d, Some (np_argsort d))
+               else Ok (np_sort d, Some (np_sort d))
+   end) = Ok (np_sort d, vidx_of N M d).
 Proof.
-  intros [Hnn HM]. rewrite tt_dimscheck_bridge. unfold H_dimscheck, H_dims. cbn [bind].
-  rewrite no_neg by auto. unfold vidx_of. destruct M as [m|]; [|reflexivity].
+  intros Hr Hn HM.
+  rewrite no_neg by (intros x Hx; specialize (Hr x Hx); lia).
+  rewrite in_range_ok by auto. rewrite nodup_ok by auto. cbn [negb].
+  unfold vidx_of. destruct M as [m|]; [|reflexivity].
   destruct HM as [Hle Hm]. destruct (Z.gtb_spec m N); [lia|].
   assert (E : (m =? N) || (m =? zlen d) = true).
   { apply orb_true_iff. destruct Hm; [left|right]; now apply Z.eqb_eq. }
   rewrite E. cbn [negb]. destruct (zlen d =? m); reflexivity.
+Qed.
+
+Theorem dimscheck_dims N M d : dims_ok N M d ->
+  tt_dimscheck N M (Some d) None = Ok (np_sort d, vidx_of N M d).
+Proof.
+  intros (Hr & Hn & HM). rewrite tt_dimscheck_bridge. unfold H_dimscheck, H_dims. cbn [bind].
+  now apply H_tail.
 Qed.
 
 (* complement convention *)
@@ -235,23 +277,34 @@ Proof.
   rewrite G; rewrite fst_tagged; auto.
 Qed.
 
+Lemma complement_range N e x : In x (complement N e) -> 0 <= x < N.
+Proof. unfold complement. rewrite filter_In, in_np_arange. lia. Qed.
+
 Theorem dimscheck_exclude N M e :
   (forall x, In x e -> 0 <= x < N) ->
   match M with None => True | Some m => m <= N /\ (m = N \/ m = zlen (complement N e)) end ->
   tt_dimscheck N M None (Some e) = Ok (complement N e, vidx_of N M (complement N e)).
 Proof.
   intros He HM. rewrite tt_dimscheck_bridge. unfold H_dimscheck, H_dims.
-  assert (E : np_all (np_isin e (np_arange 0 N)) = true).
-  { apply np_all_isin. intros x Hx. apply in_np_arange. auto. }
+  assert (E : np_all (np_isin e (np_arange 0 N)) = true) by (now apply in_range_ok).
   rewrite E, setdiff_arange. fold (complement N e). cbn [bind].
-  rewrite no_neg by apply complement_nonneg.
-  unfold vidx_of.
-  rewrite !np_sort_id by (apply sorted_lt_le, complement_sorted). destruct M as [m|]; [|reflexivity].
-  destruct HM as [Hle Hm]. destruct (Z.gtb_spec m N); [lia|].
-  assert (E2 : (m =? N) || (m =? zlen (complement N e)) = true).
-  { apply orb_true_iff. destruct Hm; [left|right]; now apply Z.eqb_eq. }
-  rewrite E2. cbn [negb].
-  destruct (zlen (complement N e) =? m); reflexivity.
+  rewrite H_tail; auto.
+  - now rewrite np_sort_id by (apply sorted_lt_le, complement_sorted).
+  - apply complement_range.
+  - apply strict_sorted_nodup, complement_sorted.
+Qed.
+
+Lemma argsort_sorted_id l : StronglySorted Z.lt l -> np_argsort l = map Z.of_nat (seq 0 (length l)).
+Proof.
+  intros Hs. unfold np_argsort.
+  assert (G : forall (t : list (Z * Z)), StronglySorted Z.lt (map fst t) -> isort_pairs t = t).
+  { induction t as [|p t IH]; intros Hst; [reflexivity|]. cbn [isort_pairs fold_right].
+    change (fold_right ins_pair [] t) with (isort_pairs t).
+    cbn [map] in Hst. inversion Hst as [|? ? Hst' Hall]; subst. rewrite IH by auto.
+    destruct t as [|q t']; [reflexivity|]. cbn. inversion Hall; subst.
+    destruct (Z.leb_spec (fst p) (fst q)); [reflexivity|lia]. }
+  rewrite G by (now rewrite fst_tagged).
+  unfold tagged. now rewrite map_snd_combine by (now rewrite map_length, seq_length).
 Qed.
 
 Theorem dimscheck_default N M : 0 <= N ->
@@ -259,26 +312,18 @@ Theorem dimscheck_default N M : 0 <= N ->
   tt_dimscheck N M None None = Ok (np_arange 0 N, option_map (fun _ => np_arange 0 N) M).
 Proof.
   intros HN HM. rewrite tt_dimscheck_bridge. unfold H_dimscheck, H_dims. cbn [bind].
-  rewrite no_neg by (intros x Hx; apply in_np_arange in Hx; lia).
-  assert (Hs : np_sort (np_arange 0 N) = np_arange 0 N) by (apply np_sort_id, sorted_lt_le, np_arange_sorted).
-  rewrite Hs. destruct M as [m|]; [|reflexivity]. subst m. cbn [option_map].
-  destruct (Z.gtb_spec N N); [lia|]. rewrite Z.eqb_refl. cbn [orb negb].
   assert (L : zlen (np_arange 0 N) = N).
   { unfold zlen, np_arange. rewrite map_length, seq_length. lia. }
-  rewrite L, Z.eqb_refl.
-  (* argsort of an increasing list is the identity *)
-  f_equal. f_equal. f_equal.
-  unfold np_argsort.
-  assert (G : forall (t : list (Z * Z)), StronglySorted Z.lt (map fst t) -> isort_pairs t = t).
-  { induction t as [|p t IH]; intros Hst; [reflexivity|]. cbn [isort_pairs fold_right].
-    change (fold_right ins_pair [] t) with (isort_pairs t).
-    cbn [map] in Hst. inversion Hst as [|? ? Hst' Hall]; subst. rewrite IH by auto.
-    destruct t as [|q t']; [reflexivity|]. cbn. inversion Hall; subst.
-    destruct (Z.leb_spec (fst p) (fst q)); [reflexivity|lia]. }
-  rewrite G by (rewrite fst_tagged; apply np_arange_sorted).
-  unfold tagged. rewrite map_snd_combine by (now rewrite map_length, seq_length).
-  unfold np_arange. rewrite map_length, seq_length. replace (N - 0) with N by lia.
-  apply map_ext. intros; lia.
+  rewrite H_tail.
+  - rewrite np_sort_id by (apply sorted_lt_le, np_arange_sorted).
+    unfold vidx_of. destruct M as [m|]; [|reflexivity]. subst m. cbn [option_map].
+    rewrite L, Z.eqb_refl. f_equal. f_equal. f_equal.
+    rewrite argsort_sorted_id by apply np_arange_sorted.
+    unfold np_arange. rewrite map_length, seq_length. replace (N - 0) with N by lia.
+    apply map_ext. intros; lia.
+  - intros x Hx. now apply in_np_arange.
+  - apply strict_sorted_nodup, np_arange_sorted.
+  - destruct M as [m|]; [|exact I]. subst m. rewrite L. split; [lia|auto].
 Qed.
 
 (* rejections *)
@@ -298,13 +343,32 @@ Proof.
   exfalso. apply Hout. apply in_np_arange. eapply np_all_isin; eauto.
 Qed.
 
-Theorem dimscheck_rejects_count N m d : (forall x, In x d -> 0 <= x) ->
+Theorem dimscheck_rejects_count N m d : (forall x, In x d -> 0 <= x < N) -> NoDup d ->
   (m > N \/ (m <> N /\ m <> zlen d)) -> tt_dimscheck N (Some m) (Some d) None = Err.
 Proof.
-  intros Hnn Hm. rewrite tt_dimscheck_bridge. unfold H_dimscheck, H_dims. cbn [bind].
-  rewrite no_neg by auto. destruct (Z.gtb_spec m N); [reflexivity|].
+  intros Hr Hn Hm. rewrite tt_dimscheck_bridge. unfold H_dimscheck, H_dims. cbn [bind].
+  rewrite no_neg by (intros x Hx; specialize (Hr x Hx); lia).
+  rewrite in_range_ok by auto. rewrite nodup_ok by auto. cbn [negb].
+  destruct (Z.gtb_spec m N); [reflexivity|].
   destruct Hm as [|[H1 H2]]; [lia|].
   destruct (Z.eqb_spec m N); [contradiction|]. destruct (Z.eqb_spec m (zlen d)); [contradiction|]. reflexivity.
+Qed.
+
+Theorem dimscheck_rejects_out_of_range N M d x : In x d -> N <= x -> tt_dimscheck N M (Some d) None = Err.
+Proof.
+  intros Hx Hge. rewrite tt_dimscheck_bridge. unfold H_dimscheck, H_dims. cbn [bind].
+  destruct (np_any (np_lt_s d 0)); [reflexivity|].
+  destruct (np_all (np_isin d (np_arange 0 N))) eqn:E; [|reflexivity].
+  exfalso. assert (Hin : In x (np_arange 0 N)) by (eapply np_all_isin; eauto).
+  apply in_np_arange in Hin. lia.
+Qed.
+
+Theorem dimscheck_rejects_repeated N M d : ~ NoDup d -> tt_dimscheck N M (Some d) None = Err.
+Proof.
+  intros Hd. rewrite tt_dimscheck_bridge. unfold H_dimscheck, H_dims. cbn [bind].
+  destruct (np_any (np_lt_s d 0)); [reflexivity|].
+  destruct (negb (np_all (np_isin d (np_arange 0 N)))); [reflexivity|].
+  now rewrite dup_rejected.
 Qed.
 
 (* alignment: position k of the sorted modes is paired with the multiplicand the caller attached to it *)
